@@ -973,6 +973,16 @@ func (r *runner) execTx(op *Op) {
 		}
 		sort.Ints(ks)
 		for _, k := range ks {
+			if k == 0 && op.Outlive > 0 && len(r.out.Viol) == 0 {
+				// the iterator's view is fixed at its creation: it stays
+				// valid after the transaction is committed or discarded
+				if old := r.iters[op.Outlive]; old != nil {
+					old.it.Release()
+				}
+				r.iters[op.Outlive] = tx.iters[k]
+				r.probe("tx-iter-outlives")
+				continue
+			}
 			tx.iters[k].it.Release()
 		}
 		tx.iters = nil
@@ -1137,6 +1147,7 @@ func (r *runner) execOp(op *Op, tx *txCtx) {
 	case "measure":
 		// C07 "space is given back": table bytes after round K of
 		// overwrite-everything + full compaction vs. after round 1
+		r.releaseHandles() // "once readers are released"
 		r.settleCheck()
 		n := r.disk.TotalBytes(storage.TypeTable)
 		r.measures = append(r.measures, n)
